@@ -47,6 +47,10 @@ var rsa1Sig KeyPair   // rsa1's key under a certificate with keyUsage digitalSig
 var rsa1CA KeyPair    // rsa1's key under a self-signed CA:TRUE certificate
 var rsaOld2 KeyPair   // a second key whose certificate lapsed in 1999
 var rsa1024 KeyPair   // a 1024-bit key (the shortest crypto/rsa works with)
+var rsaCA KeyPair     // a root CA (self-signed, CA:TRUE)
+var rsaICA KeyPair    // an issuing CA whose certificate was issued by rsaCA
+var rsaLeaf KeyPair   // an RSA key whose certificate was issued by rsaICA
+var ecLeaf KeyPair    // an ECDSA key whose certificate was issued by rsaICA
 
 func fixturesDir() string {
 	if d := os.Getenv("VERIF_FIXTURES"); d != "" {
@@ -91,6 +95,7 @@ func loadFixtures() {
 	rsaSig, rsaSKI, rsaSKIMal, rsa4096 = loadKey("rsasig"), loadKey("rsaski"), loadKey("rsaskimal"), loadKey("rsa4096")
 	rsa1Sig, rsa1CA, rsaOld2 = loadKey("rsa1sig"), loadKey("rsa1ca"), loadKey("rsaold2")
 	rsa1024 = loadKey("rsa1024")
+	rsaCA, rsaICA, rsaLeaf, ecLeaf = loadKey("rsaca"), loadKey("rsaica"), loadKey("rsaleaf"), loadKey("ecleaf")
 }
 
 // passVerifier is an application-supplied saml.SignatureVerifier that does what the library would do itself.
